@@ -1,6 +1,7 @@
 import Amgcl.Proofs.DistGershgorin
 import Amgcl.Proofs.DistTranspose
 import Amgcl.Proofs.DistSort
+import Amgcl.Proofs.DistProduct
 /-!
 # C11 — distributed matrix algebra equals serial algebra for every partition
 
@@ -189,6 +190,40 @@ theorem dist_transpose_eq (adj : K →+ K) (A : CRS K) (rp cp : List Nat) (hA : 
 
 end transpose
 
+/-! ## remote rows and matrix-matrix product -/
+section product
+variable {K : Type}
+
+/-- **remote-row exchange**: `remote_rows(A.cpat(), B)` on rank `r` returns, slot by slot of `A`'s receive buffer, the
+global rows of `B` named by the rank's sorted remote columns of `A` (each as the owner stores it: local part shifted
+to global numbering, then the remote part). -/
+theorem remote_rows_eq (A B : CRS K) (rp mp cp : List Nat) (hA : A.WF) (hB : B.WF) (h1 : rp.length = mp.length)
+    (h2 : mp.length = cp.length) (hAr : rp.sum = A.nrows) (hAc : mp.sum = A.ncols) (hBr : mp.sum = B.nrows)
+    (hBc : cp.sum = B.ncols) (r : Nat) (hr : r < rp.length) :
+    remoteRows (patternsOf (split A rp mp) mp) (split B mp cp) cp r
+      = ((patternsOf (split A rp mp) mp).getD r default).remCols.map
+          (fun c => splitRowOf cp (ownerOf mp c) (B.row c)) := by
+  have hPA : PartOK A rp mp := ⟨hA, h1, hAr, hAc⟩
+  have hok := remsOK_split A rp mp hPA
+  obtain ⟨p1, _⟩ := pattern_getD mp _ hok r (by rw [← h1]; exact hr)
+  unfold patternsOf
+  rw [p1]
+  exact remoteRows_eq A B rp mp cp hPA ⟨hB, h2, hBr, hBc⟩ r hr
+
+/-- **`dist_product_eq`**: `mpi::product(A, B)` (rows of `B` fetched with `remote_rows` through `A`'s pattern, the
+row product accumulated separately into the local and the remote part) gathered with rows by `rp` and columns by
+`cp` denotes the product of the assembled matrices, over any (not necessarily commutative) semiring.  The marker
+arrays of the C++ kernel are modelled by their row-local effect (first-occurrence order, later contributions
+added), cf. `Model/Dist.lean: accumRow`. -/
+theorem dist_product_eq [Semiring K] (A B : CRS K) (rp mp cp : List Nat) (hA : A.WF) (hB : B.WF)
+    (h1 : rp.length = mp.length) (h2 : mp.length = cp.length) (hAr : rp.sum = A.nrows) (hAc : mp.sum = A.ncols)
+    (hBr : mp.sum = B.nrows) (hBc : cp.sum = B.ncols) (i j : Nat) (hi : i < A.nrows) :
+    (assemble (distProduct (split A rp mp) (split B mp cp) mp cp) cp).get i j
+      = ∑ k ∈ Finset.range A.ncols, A.get i k * B.get k j :=
+  dist_product_get A B rp mp cp ⟨hA, h1, hAr, hAc⟩ ⟨hB, h2, hBr, hBc⟩ i j (by rw [hAr]; exact hi)
+
+end product
+
 /-! ## row sorting -/
 section sort
 variable {K : Type} [AddCommMonoid K]
@@ -241,6 +276,12 @@ example (i j : Nat) (hi : i < 3) (hj : j < 3) :
     (assemble (distTranspose (AddMonoidHom.id Int) (split exA [2, 0, 1] [1, 1, 1]) [2, 0, 1] [1, 1, 1]) [2, 0, 1]).get j i
       = exA.get i j :=
   dist_transpose_eq (AddMonoidHom.id Int) exA [2, 0, 1] [1, 1, 1] (by decide) rfl (by decide) (by decide) i j hi hj
+
+example (i j : Nat) (hi : i < 3) :
+    (assemble (distProduct (split exA [2, 0, 1] [1, 1, 1]) (split exA [1, 1, 1] [0, 3, 0]) [1, 1, 1] [0, 3, 0]) [0, 3, 0]).get i j
+      = ∑ k ∈ Finset.range 3, exA.get i k * exA.get k j :=
+  dist_product_eq exA exA [2, 0, 1] [1, 1, 1] [0, 3, 0] (by decide) (by decide) rfl rfl (by decide) (by decide)
+    (by decide) (by decide) i j hi
 
 /-- diag(1, 5) on three ranks (the last one empty): the reproducer of the missing `MPI_MAX` reduction -/
 example : distGershgorin false (split (⟨2, #[[(0, (1 : Rat))], [(1, 5)]]⟩ : CRS Rat) [1, 1, 0] [1, 1, 0])
